@@ -136,7 +136,7 @@ func (ts *TestScript) doCmdCmp(neg bool, args []string, env bool) {
 		return // they are equal, as expected
 	}
 	if ts.params.UpdateScripts && !env {
-		if scriptFile, ok := ts.scriptFiles[absName2]; ok {
+		if scriptFile, ok := ts.scriptFiles[filepath.Clean(absName2)]; ok {
 			ts.scriptUpdates[scriptFile] = text1
 			return
 		}
